@@ -15,8 +15,17 @@ CFGS = [dict(noise=False, login=False), dict(noise=True, login=False)]
 def run_family(ctx, name: str, cases: list) -> dict:
     """cases: [(cfg, schedule)] -> executed on the real client, validated by TraceSession.tla"""
     logging.disable(logging.CRITICAL)
-    traces = [sessionsim.run_schedule(cfg, sch, seed=ctx.seed * 104729 + i) for i, (cfg, sch) in enumerate(cases)]
-    findings = []
+    from vf import watchdog
+
+    traces, findings, kept = [], [], []
+    for i, (cfg, sch) in enumerate(cases):
+        try:
+            with watchdog.limit(90, "schedule"):
+                traces.append(sessionsim.run_schedule(cfg, sch, seed=ctx.seed * 104729 + i))
+            kept.append((cfg, sch))
+        except watchdog.Hang:
+            findings.append({"fields": ["hang"], "cause": "hang", "cfg": cfg, "schedule": sch, "line": 0, "rows": []})
+    cases = kept
     from vf import tracecheck
 
     res = tracecheck.run_batch(ctx, "TraceSession", [{"rows": t["rows"]} for t in traces], batch=2000, tag=name)
